@@ -374,11 +374,50 @@ func reifyGetField(
 	return nil
 }
 
+// derefConfig replaces a dynamic value (a reference) evaluating to a
+// configuration by that configuration. The references resolved on the way stay
+// active until the returned function is called, so that a reference back to
+// them from within the configuration is reported as cyclic while it is being
+// unpacked, instead of being followed again and again.
+func derefConfig(opts *options, val value) (value, func()) {
+	active := opts.activeFields
+	done := func() { opts.activeFields = active }
+
+	if _, ok := val.(*cfgDynamic); !ok {
+		return val, done
+	}
+
+	opts.activeFields = newFieldSet(active)
+	resolved := val
+	for {
+		dyn, ok := resolved.(*cfgDynamic)
+		if !ok {
+			break
+		}
+		next, err := dyn.getValue(opts)
+		if err != nil {
+			resolved = nil
+			break
+		}
+		resolved = next
+	}
+	if sub, ok := resolved.(cfgSub); ok {
+		return sub, done
+	}
+
+	// not a configuration (or failing): val is evaluated where it is used
+	opts.activeFields = active
+	return val, done
+}
+
 func reifyValue(
 	opts fieldOptions,
 	t reflect.Type,
 	val value,
 ) (reflect.Value, Error) {
+	val, done := derefConfig(opts.opts, val)
+	defer done()
+
 	if t.Kind() == reflect.Interface && t.NumMethod() == 0 {
 		reified, err := val.reify(opts.opts)
 		if err != nil {
@@ -471,6 +510,9 @@ func reifyMergeValue(
 	opts fieldOptions,
 	oldValue reflect.Value, val value,
 ) (reflect.Value, Error) {
+	val, done := derefConfig(opts.opts, val)
+	defer done()
+
 	old := chaseValueInterfaces(oldValue)
 	t := old.Type()
 	old = chaseValuePointers(old)
